@@ -23,6 +23,7 @@ pub mod c18;
 pub mod c19;
 pub mod c20;
 pub mod fid;
+pub mod planted;
 
 /// Parent-side preparation before the lanes start.
 pub fn prepare(id: &str) {
